@@ -394,6 +394,36 @@ def unit_vmap(ctx):
     it.call_method(o2, "fill_feat_", [y2, x])
     ctx.equal("vmap.centred-at-heg = 0", hyps, y2[0], tm.ZERO, fq)
     ctx.canary("vmap.canary", hyps, hv, tm.lift(y[0]) * 2)
+    # general scale: the documented recipe centres a map of any scale on the UEG value with center = scale * get_vmap_heg_value(ueg, gamma)
+    # (e.g. VMap(2, 1, scale=2.0, center=1.0) for alpha, whose UEG value is 1); the declared bounds are the range of the map on x >= 0
+    sc, ce = tm.var("scale"), tm.var("center")
+    hs = hyps + [tm.mk_lt(tm.ZERO, sc)]
+    o3 = it.call(t.ns["VMap"], [0, gam], {"scale": sc, "center": ce})
+    y3 = np.empty((1,), dtype=object)
+    y3[0] = tm.ZERO
+    it.call_method(o3, "fill_feat_", [y3, x])
+    ctx.equal("vmap[scale, center].value = scale * heg-value - center", hs, y3[0], sc * tm.lift(hv) - ce, fq, replay=replay_vmap_centre())
+    o4 = it.call(t.ns["VMap"], [0, gam], {"scale": sc, "center": sc * tm.lift(hv)})
+    y4 = np.empty((1,), dtype=object)
+    y4[0] = tm.ZERO
+    it.call_method(o4, "fill_feat_", [y4, x])
+    ctx.equal("vmap[scale, center = scale * heg-value] is 0 at the UEG value", hs, y4[0], tm.ZERO, fq, replay=replay_vmap_centre())
+    try:
+        lo_, hi_ = it.getattr(o3, "bounds")
+        ctx.valid("vmap[scale, center]: the value on x >= 0 lies within the declared bounds", hs, tm.mk_and(tm.mk_le(tm.lift(lo_), tm.lift(y3[0])), tm.mk_le(tm.lift(y3[0]), tm.lift(hi_))), fq)
+    except Exception as e:
+        ctx.undecided("vmap bounds readable", str(e)[:100], fq)
+
+
+def replay_vmap_centre():
+    def replay(wit):
+        import ciderpress.dft.transform_data as td
+        hv = td.get_vmap_heg_value(1.0, 1.0)
+        m = td.VMap(0, 1.0, scale=2.0, center=2.0 * hv)
+        y = np.zeros(1)
+        m.fill_feat_(y, np.array([[1.0]]))
+        return {"reproduced": bool(abs(y[0]) > 1e-14), "VMap(scale=2, center=2*heg_value) at the UEG value": float(y[0])}
+    return replay
 
 
 def unit_sdmx(ctx):
